@@ -51,9 +51,10 @@ Proof.
     assert (Hqk : (1 <= nth k qtbl 0)%Z) by (apply Hq; apply nth_In; lia).
     unfold vecZ.
     set (c := nth k coefs 0%Z) in *. set (q := nth k qtbl 0%Z) in *. set (f := nth k (fdct_islow cf data) 0%Z) in *.
+    clearbody c q f.
     assert (Hz : (- (8 * q) <= 2 * (c * (8 * q) - f) <= 8 * q)%Z) by lia.
     destruct Hz as [Hz1 Hz2]. apply IZR_le in Hz1, Hz2, Hqk.
-    rewrite ?opp_IZR, ?mult_IZR, ?minus_IZR, ?mult_IZR in Hz1, Hz2. clearbody c q f.
+    rewrite ?opp_IZR, ?mult_IZR, ?minus_IZR, ?mult_IZR in Hz1, Hz2. rewrite ?opp_IZR, ?mult_IZR in Hz1.
     apply Rabs_le. split; lra.
   - unfold qnorm. rewrite sqrt_sqrt by exact Hsum0. lra.
   - exact Hy.
